@@ -442,6 +442,16 @@ pub fn run(ctx: &Ctx, st: &mut Stats) {
             }
         }
     }
+    // history: a fractional-day offset, then a call that fails (non-finite / far out of range offset), then the first again
+    let nhf = ctx.tier.pick(200, 200_000, 2_000_000);
+    ctx.par(st, "history: A, a failing offset (NaN, infinite, 1e300, out of range), A", false, 0, nhf, |st, i, rng| {
+        let base = rng.range_i64(TS_MIN, TS_MAX);
+        let f = rand_f64(rng);
+        let k = if i % 2 == 0 { K::TsAddDays } else { K::TsSubDays };
+        let bad = *rng.pick(&[f64::NAN, f64::INFINITY, f64::NEG_INFINITY, 1e300, -1e300, 4e6, -4e6, f64::MAX]);
+        let (a, b) = (C::af(k, base, f), C::af(if rng.chance(1, 2) { K::TsAddDays } else { K::TsSubDays }, if rng.chance(1, 2) { base } else { rng.range_i64(TS_MIN, TS_MAX) }, bad));
+        st.eval_hist(mix(a.hash(3), b.hash(5)), vec![a, b, a, b, b, a], check);
+    });
     // seeded random operands
     let n = ctx.tier.pick(2_000, 3_000_000, ctx.big(60_000_000, 500_000_000));
     ctx.par(st, "random/all-linear-ops", false, 0, n, |st, _, rng| {
@@ -482,7 +492,7 @@ pub fn run(ctx: &Ctx, st: &mut Stats) {
             K::OraSubTs => C::ab(k, rora(rng), rts(rng)),
             K::TsOraSubDate => C::ab(k, rts(rng), rora(rng)),
         };
-        st.eval_h(c.hash(k as u64 + 100), &c, check);
+        { let (an, td, ks) = crate::primers::g_context(c.a, c.b); crate::primers::eval_sched(st, rng, c.hash(k as u64 + 100), &c, &an, td, &ks, check); }
     });
 }
 
